@@ -151,9 +151,10 @@ fn run_e1(rep: &Report) -> i32 {
         // the expected list, hence with each other)
         crate::e3::check_huge_id_space(rep);
     }
-    if rep.property == "C14" {
+    if rep.property == "C14" || rep.property == "C09" {
         // "occurs in the span": the span is whatever the caller stated
-        // through Input, by any of its constructors / setters
+        // through Input, by any of its constructors / setters (C09: and the
+        // anchored flag is whatever the caller stated, in any order)
         let mut st = crate::report::Stats::default();
         crate::e3::check_input_forms(rep, &mut st);
         rep.merge(&st);
